@@ -70,6 +70,32 @@ Theorem C05_one_iteration_per_period : forall p t0 bs, 0 <= p ->
     r = Delay.Model.grid t0 p (S i).
 Proof. exact passes_on_grid. Qed.
 
+(* The same with late wake-ups (the loop thread is rescheduled [late_i] us after its alarm):
+   [bl] lists, per pass, its duration and the lateness of the wake-up that follows it.  Whatever
+   the passes and wake-ups do, the alarm programmed by the i-th wait() is the grid point i+2 ... *)
+Theorem C05_alarms_never_leave_the_grid : forall p t0 bl,
+  map snd (jlog (Delay.Model.create p t0, t0) (jsched bl)) = alarms_from (t0 + p) p (length bl).
+Proof. exact loop_alarms_on_grid. Qed.
+
+Theorem C05_alarms_from_is_the_grid : forall e p n i, (i < n)%nat ->
+  nth_error (alarms_from e p n) i = Some (Some (e + Z.of_nat (S i) * p)).
+Proof. exact alarms_from_nth. Qed.
+
+(* ... and as long as every pass plus the lateness of the wake-up before it fits in the period
+   ([fits]), the i-th wake-up happens in the i-th grid cell, exactly [late_i] after its start:
+   lateness never accumulates, one pass per period *)
+Theorem C05_one_iteration_per_period_late_wakeups : forall p t0 bl, fits p 0 bl ->
+  forall i c r a, nth_error (jlog (Delay.Model.create p t0, t0) (jsched bl)) i = Some (c, r, a) ->
+  exists b l, nth_error bl i = Some (b, l) /\ r = Delay.Model.grid t0 p (S i) + l
+              /\ a = Some (Delay.Model.grid t0 p (S (S i))).
+Proof. exact wakes_in_their_cells. Qed.
+
+Example C05_late_nv :
+  fits 20000 0 [(3000, 4000); (9000, 6000); (14000, 0)]
+  /\ jlog (Delay.Model.create 20000 100, 100) (jsched [(3000, 4000); (9000, 6000); (14000, 0)])
+     = [(3100, 24100, Some 40100); (33100, 46100, Some 60100); (60100, 60100, Some 80100)].
+Proof. split; [cbn; repeat split; discriminate | reflexivity]. Qed.
+
 (* Non-vacuity: the example robot through disabled, teleop x2, autonomous, test, disabled, end;
    robotPeriodic sees /robot/mode = the running mode in every pass (also under faults) *)
 Example C05_nv :
@@ -86,3 +112,6 @@ Print Assumptions C05_execute_once_when_enabled_never_otherwise.
 Print Assumptions C05_one_pass_per_wakeup.
 Print Assumptions C05_mode_written_on_entry.
 Print Assumptions C05_one_iteration_per_period.
+Print Assumptions C05_alarms_never_leave_the_grid.
+Print Assumptions C05_alarms_from_is_the_grid.
+Print Assumptions C05_one_iteration_per_period_late_wakeups.
